@@ -28,12 +28,63 @@ var flowAssumptions = []string{
 	"a clean batch is evidence over the sampled schedules and fault sequences, not proof",
 }
 
+const distinctRule = " distinct = distinct hash of the (goroutine, action-kind) decision sequence of a run."
+
 var props = map[string]propMeta{
 	"C01": {
 		Level: "exploration",
-		Rule: "each evaluation is one seeded run of the flow family (InitSession on simdisk, reader, 1-3 publisher tasks with 1-8 persisted publishes each, swarm-drawn configuration and fault mix; quiescence phase with bounded liveness). distinct = distinct hash of the (goroutine, action-kind) decision sequence; non-trivial = at least one fault fired and a message was accepted while down or retransmitted on a later connection",
+		Rule: "each evaluation is one seeded run of the general flow (InitSession on simdisk, reader, 1-3 publisher tasks with 1-8 persisted publishes each, optional requester tasks, swarm-drawn configuration and fault mix; quiescence phase with bounded liveness)." + distinctRule + " non-trivial = at least one fault fired and a message was accepted while down or retransmitted on a later connection",
 		Assumptions: flowAssumptions,
-		Probes:      []string{"retransmitted", "accepted_while_down", "completed_publish", "short_write_timeout", "write_break", "read_expiry", "dial_fail", "disk_err_before_S", "disk_err_after_D"},
+		Probes:      []string{"retransmitted", "accepted_while_down", "completed_publish", "short_write_timeout", "write_break", "read_expiry", "dial_fail", "disk_err_before_S", "disk_err_before_D", "disk_err_before_L"},
+		QuickS:      20, ThoroughS: 300,
+	},
+	"C03": {
+		Level: "exploration",
+		Rule: "seeded runs of the general flow with exactly-once publishes (70-100 %), faults of C01; oracles: no PUBLISH after the PUBREL record was stored, PUBREL present at every Online, broker delivery log has each exactly-once message at most once." + distinctRule + " non-trivial = a fault fired and a PUBREL or PUBLISH was retransmitted",
+		Assumptions: flowAssumptions,
+		Probes:      []string{"pubrel_resent", "retransmitted", "unread_input_lost"},
+		QuickS:      20, ThoroughS: 300,
+	},
+	"C05": {
+		Level: "exploration",
+		Rule: "seeded runs with one sequential publisher (exact order) or 2-6 concurrent publishers (per-goroutine and real-time order, wire order = identifier order), both levels, breaks and failed connects; oracles over the wire log: consecutive identifiers at first appearance, resend order, DUP exactly on retransmissions of completely written packets, completion order." + distinctRule + " non-trivial = a fault fired and a retransmission carried DUP",
+		Assumptions: flowAssumptions,
+		Probes:      []string{"resend_carried_dup", "retransmitted"},
+		QuickS:      20, ThoroughS: 300,
+	},
+	"C08": {
+		Level: "exploration",
+		Rule: "seeded runs with concurrent Publish/Subscribe/Unsubscribe/Ping/persisted publishes plus the reader's own writes and resends; every Write may be split at a drawn byte count with a deadline expiry or a hard error, on pipe-like and TCP-like connections; oracle: each connection's bytes parse (strict independent codec) as whole packets that equal their request, success implies a complete packet." + distinctRule + " non-trivial = a write was split (timeout or hard error)",
+		Assumptions: flowAssumptions,
+		Probes:      []string{"short_write_timeout", "write_break", "request_success"},
+		QuickS:      20, ThoroughS: 300,
+	},
+	"C11": {
+		Level: "exploration",
+		Rule: "seeded runs with 2-7 requester tasks issuing Subscribe/Unsubscribe/Ping (quit nil, open, closed before, closed during), broker failing a subset of filters, connection loss at any point; oracles: a result needs that request's own response handed to the client before the return, SubscribeError lists exactly the failed filters in order, every call has returned when the quiescence phase ends." + distinctRule + " non-trivial = a fault fired and a request was answered or a quit was closed during a request",
+		Assumptions: flowAssumptions,
+		Probes:      []string{"answered_request", "answered_ping", "subscribe_error_mapped", "quit_closed_during_request"},
+		QuickS:      20, ThoroughS: 300,
+	},
+	"C14": {
+		Level: "exploration",
+		Rule: "seeded runs of every request method against every client state reached by the fault mix, with quit timing drawn; oracle over every API return: documented class per method, not-submitted classes leave no byte of the request's unique marker on any connection, quit classes only after quit, rejected persisted publishes never transmitted." + distinctRule + " non-trivial = a fault fired and a limbo or not-submitted class was returned",
+		Assumptions: flowAssumptions,
+		Probes:      []string{"class_ErrSubmit", "class_ErrBreak", "class_ErrDown", "class_ErrCanceled", "class_ErrAbandoned", "class_ErrMax"},
+		QuickS:      20, ThoroughS: 300,
+	},
+	"C17": {
+		Level: "exploration",
+		Rule: "seeded runs with AtLeastOnceMax/ExactlyOnceMax in {0,1,2,3,-1,20000} and 1-4 concurrent publishers; oracles: identifiers of unfinished transactions pairwise distinct and non-zero across the four kinds, in-flight count never above the maximum, ErrMax only with excess and without waiting on the network." + distinctRule + " non-trivial = ErrMax was returned",
+		Assumptions: flowAssumptions,
+		Probes:      []string{"errmax_returned"},
+		QuickS:      20, ThoroughS: 300,
+	},
+	"C18": {
+		Level: "exploration",
+		Rule: "seeded connect histories: dial failures and hangs, breaks at any point of CONNECT/CONNACK/resend, refused CONNACK with any return code, clean session on or off, requests of every type issued in each phase; oracles: CONNECT first and reflecting the Config, nothing before an accepting CONNACK, clean session only until the first established connection, refused connections closed and reported, new requests only after the resend, ErrDown only after trouble." + distinctRule + " non-trivial = a connect failed, was refused, or a reconnect happened",
+		Assumptions: flowAssumptions,
+		Probes:      []string{"refused_connack_closed", "reconnect_without_clean", "dial_fail", "dial_hang"},
 		QuickS:      20, ThoroughS: 300,
 	},
 }
